@@ -16,6 +16,7 @@ from . import common
 from .common import LEAN, VERIF
 
 GEN = os.path.join(LEAN, "DS", "Gen")
+LATSEEN = set()
 
 
 def F(x):
@@ -172,8 +173,20 @@ def run(ck):
         "letter + crystal class) per setting; independent exact all-pairs oracle in Python on every setting; "
         "lattice-rule oracle on the group-averaged metric and on %d generic cells of other systems; "
         "distinct_nontrivial = settings with more than one operation" % (nset, len(SHAPES)))
-    # 1. Lean obligations
+    # 1. Lean obligations (group/metadata certificates, and the lattice-rule certificates of C03b)
+    from translate import latpar
+
+    lrep = latpar.main(GEN, os.path.join(GEN, "latpar_report.json"))
     ok, info = ck.lean_obligations("DS.Props.C03", extra_count=rep["ok"] + sum(4 for _ in rep["bad"]))
+    ok_b, info_b = ck.lean_obligations("DS.Props.C03b", extra_count=lrep.get("obligations", 0))
+    healthy = not lrep.get("uncertified") and not lrep.get("rule_errors") and not lrep.get("rule_differs_from_model")
+    if healthy:
+        ok_f, info_f = ck.lean_obligations("DS.Props.C03bFull")
+    else:
+        ok_f, info_f = True, {"failed_modules": []}
+    lat_flagged = {}
+    for u in lrep.get("uncertified", []):
+        lat_flagged[u["number"]] = u
     # 2. independent oracle on every setting (always, also when everything agrees)
     oracle_fail = {}
     for pos, sg in bypos.items():
@@ -221,9 +234,38 @@ def run(ck):
             fails = [{"what": "isSpaceGroupLatPar raised %r" % e, "cell": None}]
         nlat += 1 + len(SHAPES)
         for f in fails:
+            LATSEEN.add("latpar:%s" % sg.number)
             ck.fail("latpar:%s" % sg.number, "isSpaceGroupLatPar(%s #%s) %s: %r" % (sg.short_name, sg.number, f["what"], f["cell"]),
                     {"kind": "oracle", "setting": sg.number, "cell": f["cell"], "detail": f["what"]})
     ck.coverage["evaluations"] += nlat
+    # lattice-rule certificates that could not be found: the oracle above should have produced the failing cell;
+    # if it did not, try the cell the translator proposes, else report the broken obligation without an input
+    for num, u in lat_flagged.items():
+        sgm = [g for g in sgs.SpaceGroupList if g.number == num]
+        cell = u.get("invariant_cell_to_try")
+        hit = False
+        if sgm and cell:
+            try:
+                if not isSpaceGroupLatPar(sgm[0], *cell):
+                    hit = True
+                    ck.fail("latpar:%s" % num, "isSpaceGroupLatPar(%s #%s) rejects the invariant cell %r (%s)" % (sgm[0].short_name, num, cell, u.get("reason")),
+                            {"kind": "oracle", "setting": num, "cell": cell, "detail": u.get("reason")})
+            except Exception as e:
+                hit = True
+                ck.fail("latpar:%s" % num, "isSpaceGroupLatPar(#%s) raised %r on %r" % (num, e, cell), {"kind": "oracle", "setting": num, "cell": cell})
+        if not hit and ("latpar:%s" % num) not in LATSEEN:
+            ck.fail("latpar-cert:%s" % num, "no lattice-rule certificate for setting #%s: %s" % (num, u.get("reason")),
+                    {"kind": "proof-obligation", "setting": num, "theorem": "DS.Gen.sg%s_lat / DS.Props.C03b.latpar_complete" % num, "detail": u}, no_failing_input=True)
+    for key in ("rule_errors", "rule_differs_from_model", "accepts_lower"):
+        for item in (lrep.get(key) or []):
+            if key == "accepts_lower" and any(k.startswith("latpar:") for k in LATSEEN):
+                continue
+            ck.fail("latpar-rule:%s:%s" % (key, str(item)[:40]), "isSpaceGroupLatPar source rule: %s: %r" % (key, item),
+                    {"kind": "translator", "detail": {key: item}, "theorem": "DS.Props.C03bFull.all_agree"}, no_failing_input=(key != "accepts_lower"))
+    if (not ok_b or not ok_f) and not ck.violations:
+        ck.fail("lean-build-c03b", "Lean obligations of C03b no longer check: %r %r" % (info_b.get("failed_modules"), info_f.get("failed_modules")),
+                {"kind": "proof-obligation", "theorem": (info_b.get("failed_modules") or []) + (info_f.get("failed_modules") or []),
+                 "errors": info_b.get("errors")}, no_failing_input=True)
     # 5. differential spot check of SymOp.__call__ against the model action (driver)
     import numpy
 
